@@ -684,9 +684,15 @@ func runCheck(id, tier string) int {
 		"wall_s":      time.Since(start).Seconds(),
 		"violations":  len(violations),
 	}
-	_ = os.MkdirAll(filepath.Join(root, "evidence"), 0o755)
+	// evidence/<id>.json describes /repo; a run against another tree (VERIF_REPO, used by the
+	// sensitivity scripts) records under .work/ instead and leaves the record of /repo alone
+	evDir := filepath.Join(root, "evidence")
+	if os.Getenv("VERIF_REPO") != "" {
+		evDir = filepath.Join(root, ".work", "evidence-alt")
+	}
+	_ = os.MkdirAll(evDir, 0o755)
 	eb, _ := json.MarshalIndent(ev, "", " ")
-	_ = os.WriteFile(filepath.Join(root, "evidence", id+".json"), eb, 0o644)
+	_ = os.WriteFile(filepath.Join(evDir, id+".json"), eb, 0o644)
 
 	kids := make([]string, 0, len(knownLines))
 	for k := range knownLines {
